@@ -48,6 +48,12 @@ TMutPop ==
   /\ \A a \in 1..TNA : MutOK(a, Ev.hs[a])
   /\ val' = [a \in 1..TNA |-> [h \in 1..TH |-> After(a, h)]]
   /\ UNCHANGED lrs /\ nmut' = nmut + 1 /\ act' = [op |-> "mutpop"]
+\* a learn step (or any other operation) in between must not move any hyperparameter
+TNoop ==
+  /\ Ev.op = "noop" /\ T.cfg.exact
+  /\ Check("returns without raising", Ev.exc = "")
+  /\ Check("learning does not change hyperparameters", \A b \in 1..TNA, g \in 1..TH : After(b, g) = val[b][g])
+  /\ UNCHANGED <<val, lrs>> /\ nmut' = nmut + 1 /\ act' = [op |-> "noop"]
 TCopy ==
   /\ Ev.op = "copy" /\ T.cfg.exact
   /\ Check("returns without raising", Ev.exc = "")
@@ -68,7 +74,7 @@ TFacts ==
   /\ UNCHANGED <<val, lrs>> /\ nmut' = nmut + 1 /\ act' = [op |-> "facts"]
 
 TAccept == /\ l = Len(T.ev) + 1 /\ PrintT(<<"ACCEPT", tid>>) /\ l' = l + 1 /\ UNCHANGED <<vars, tid>>
-TNext == \/ (l <= Len(T.ev) /\ (TMutate \/ TMutPop \/ TCopy \/ TFacts) /\ l' = l + 1 /\ UNCHANGED tid)
+TNext == \/ (l <= Len(T.ev) /\ (TMutate \/ TMutPop \/ TNoop \/ TCopy \/ TFacts) /\ l' = l + 1 /\ UNCHANGED tid)
          \/ TAccept
 TSpec == TInit /\ [][TNext]_tvars
 ================================================================================
